@@ -120,6 +120,14 @@ def run(tier, seed):
         r2 = sp.bss_eval_sources(ref * c2, est * c)
         scaleok = bool(np.allclose(r2[0], sdr, atol=1e-5) and np.allclose(r2[1], sir, atol=1e-5) and np.allclose(r2[2], sar, atol=1e-5)
                        and list(r2[3]) == list(perm))
+        # extreme but valid gains (a very quiet or very loud estimate / reference is still a non-zero multiple)
+        # (a reference 1e13 times louder than the estimate loses whole dBs to round-off on the unchanged tree - measured, not
+        # claimed; the gains below keep the ratio within 1e10 and the comparison at 1e-3 dB)
+        gq = rng.choice([1e-10, 1e-9, 1e6])
+        gr = rng.choice([1.0, 1e-8])
+        r2x = sp.bss_eval_sources(ref * gr, est * gq)
+        scaleok = scaleok and bool(np.allclose(r2x[0], sdr, atol=1e-3) and np.allclose(r2x[1], sir, atol=1e-3)
+                                   and np.allclose(r2x[2], sar, atol=1e-3) and list(r2x[3]) == list(perm))
         # the same numeric facts for the image variant (2 channels), and evaluate() as the bundle of the four functions
         imgdecompok = imgscaleok = evalok = True
         if it % 2 == 0 or thorough:
